@@ -157,6 +157,11 @@ def _savorize_src(cname, ops):
                   '            _v = node.get_value()',
                   '            node.make_mapping()',
                   '            node.set_attribute(%r, _v)' % op[1]]
+        elif k == 'scalar_to_map_opt':
+            L += ['        if node.is_scalar(str) or node.is_scalar(type(None)):',
+                  '            _v = node.get_value()',
+                  '            node.make_mapping()',
+                  '            node.set_attribute(%r, _v)' % op[1]]
         elif k == 'int_add':
             L += ['        if node.is_mapping() and node.has_attribute_type(%r, int):' % op[1],
                   '            node.set_attribute(%r, node.get_attribute(%r).get_value() + %d)' % (op[1], op[1], op[2])]
@@ -219,6 +224,10 @@ def _sweeten_src(cname, ops):
         elif k == 'scalar_lower':
             L += ['        if node.is_scalar(str):',
                   '            node.set_value(node.get_value().lower())']
+        elif k == 'map_to_scalar_opt':
+            L += ['        if node.is_mapping() and (node.has_attribute_type(%r, str)' % op[1],
+                  '                                  or node.has_attribute_type(%r, type(None))):' % op[1],
+                  '            node.set_value(node.get_attribute(%r).get_value())' % op[1]]
         elif k == 'map_to_scalar':
             L += ['        if node.is_mapping() and node.has_attribute_type(%r, str):' % op[1],
                   '            node.set_value(node.get_attribute(%r).get_value())' % op[1]]
